@@ -19,6 +19,7 @@ EXPLANATION = (
     "preserved by lowering, compilation, execution and printing. R18.4: the root is last (anf moves it to the end, readers return "
     "the last value). R18.5: unsupported terms are rejected, never skipped. R18.6: the program's collections are frozen as tuples."
     ' Added since: R18.3 accepts any permutation fold of a contraction, flags filters / slices / zip-pair truncation; R18.4 the tracer rejects a function whose result is not the last numbered value; R18.5 tracer constant predicate, repeated-input guard, complete or named printing of op parameters; R18.7 the trace record depends on *args and **kwargs; R18.8 popped operands are consumed on every path.'
+    ' Round 5: R18.9 Op.__reduce__ carries every parameter; R18.10 a one-component tuple prints as a tuple; R18.11 allocations of value numbers and emitted slots are paired on every path of the numbering loops; R18.12 the tracer numbers operations in tape order.'
 )
 ASSUMPTIONS = ["that each op computes the same value inside and outside a program is not decided", "pickling relies on R18.6 and on Op.__reduce__ (C07)"]
 RULE_TEXT = "one obligation per phase sequence, per validation path, per operand-order site, per rejection site"
@@ -518,7 +519,80 @@ def run(prog: Program, col: Collector, tier: str, refs: Optional[Refs] = None, c
     # ---------------------------------------------------------------- R18.7
     col.rule("R18.7", "what the tracer records for an op call determines the computation that was traced", floor=1)
     _trace_record(prog, col, refs)
+
+    # ---------------------------------------------------------------- R18.9 (shared with C07: R07.6)
+    col.rule("R18.9", "a pickled program keeps every parameter of its ops", floor=1)
+    from .c07 import op_reduce_clause
+    op_reduce_clause(prog, col)
+
+    # ---------------------------------------------------------------- R18.11
+    col.rule("R18.11", "every value number that is allocated has exactly one slot emitted for it, on every path of the numbering loops", floor=5)
+    _alloc_emit_pairing(prog, col, refs)
+
+    # ---------------------------------------------------------------- R18.12
+    col.rule("R18.12", "the tracer numbers operations in execution order (a topological order), not in order of discovery from the root", floor=1)
+    _trace_order(prog, col, refs)
+
+    # ---------------------------------------------------------------- R18.10
+    col.rule("R18.10", "the printed source renders a tuple node as a tuple for every arity (trailing comma)", floor=1)
+    _printed_tuple(prog, col, refs)
     return col
+
+
+def _printed_tuple(prog: Program, col: Collector, refs: Refs):
+    """OpProgram.as_code prints every operation as `<printed op>(<args>...)`.  The tuple constructor is printed as the empty string,
+    i.e. the tuple is rendered by the bare parentheses of the call template; `(v4)` is not a tuple, so the template must put a
+    comma after the arguments (`(v4,)`), or every argument must carry its own trailing comma."""
+    ac = prog.funcs.get("funsor.ops.program::OpProgram.as_code")
+    if ac is None:
+        raise AnalysisError("anchor OpProgram.as_code not found")
+    # which helper prints the op, and does it print some op as ""?
+    printers = set()
+    for c in ast.walk(ac.node):
+        if isinstance(c, ast.Call) and isinstance(c.func, ast.Name):
+            r = refs.resolve(c.func)
+            lk = prog.lookup(r) if r else None
+            if lk and lk[0] == "func" and lk[1].module is ac.module and len(c.args) == 1:
+                printers.add(lk[1].fq)
+    empties = []
+    for fq in printers:
+        pf = prog.funcs[fq]
+        for r in walk_no_nested(pf.node):
+            if isinstance(r, ast.Return) and isinstance(r.value, ast.Constant) and r.value.value == "":
+                empties.append((pf, r))
+    if not empties:
+        col.ok(f"{ac.fq}::tuple rendering", "no op is printed as the empty string: tuples are not rendered by the bare call parentheses", ac.loc(), nontrivial=False)
+        return
+    # the call template: a JoinedStr `{op}({args}...)`
+    templates = []
+    for js in ast.walk(ac.node):
+        if isinstance(js, ast.JoinedStr):
+            parts = js.values
+            for i, v in enumerate(parts):
+                if isinstance(v, ast.Constant) and isinstance(v.value, str) and v.value.startswith("(") and i >= 1 and isinstance(parts[i - 1], ast.FormattedValue):
+                    templates.append((js, i))
+    if not templates:
+        col.unresolved(f"{ac.fq}::tuple rendering", "call template `{op}({args}...)` not found as an f-string", ac.loc())
+        return
+    for js, i in templates:
+        parts = js.values
+        # constant text after the last formatted value of the template
+        tail = parts[-1].value if isinstance(parts[-1], ast.Constant) and isinstance(parts[-1].value, str) else ""
+        args_fv = [p for p in parts[i:] if isinstance(p, ast.FormattedValue)]
+        comma_in_template = tail.replace(" ", "").startswith(",)") or tail.replace(" ", "") == ",)"
+        # or every argument carries its own trailing comma: args = "".join(f"v{a}," ...) / " ".join(f"v{a}," ...)
+        own = False
+        for fv in args_fv:
+            if isinstance(fv.value, ast.Name):
+                for st in walk_no_nested(ac.node):
+                    if isinstance(st, ast.Assign) and any(isinstance(t, ast.Name) and t.id == fv.value.id for t in st.targets):
+                        for x in ast.walk(st.value):
+                            if isinstance(x, ast.JoinedStr) and x.values and isinstance(x.values[-1], ast.Constant) and str(x.values[-1].value).rstrip().endswith(","):
+                                own = True
+        col.check(comma_in_template or own, f"{ac.fq}::tuple rendering",
+                  "the call template ends its argument list with a comma: a one-component tuple prints as `(v,)`",
+                  f"the tuple constructor is printed as the empty string, so a tuple is rendered by the parentheses of the call template `{norm(js)}`, which puts no comma after "
+                  "the arguments: a one-component Tuple prints as `(v4)`, i.e. the bare value", ac.loc(js))
 
 
 def _trace_record(prog: Program, col: Collector, refs: Refs):
@@ -606,3 +680,189 @@ def _popped_values(prog: Program, col: Collector):
                 where = "the end of the function" if tgt.kind == "exit" else f"the assignment at line {getattr(tgt.ast, 'lineno', '?')}"
                 col.violation(construct, f"the element removed by `{norm(p_.value)}` can reach {where} without `{name}` being read: an operand is dropped from the compiled program "
                               "(for some numbers of terms)", f.loc(p_))
+
+
+# ---------------------------------------------------------------------- R18.11
+def _program_lists(f: Func, refs: Refs):
+    """names of the lists handed to the OpProgram constructor in `f`"""
+    out = []
+    for c in ast.walk(f.node):
+        if isinstance(c, ast.Call) and (refs.resolve(c.func) if isinstance(c.func, (ast.Name, ast.Attribute)) else "") == "funsor.ops.program.OpProgram":
+            out = [a.id for a in c.args if isinstance(a, ast.Name)]
+    return out
+
+
+def _alloc_emit_pairing(prog: Program, col: Collector, refs: Refs):
+    """OpProgram.__call__ gives the i-th value of constants + inputs + operation results the number i.  The writers allocate the
+    numbers themselves (`ids[x] = len(ids)`); a number allocated on a path that appends nothing to the constants / inputs /
+    operations lists shifts every later number by one (the program then reads the wrong slot or runs off the end)."""
+    n = 0
+    for fq in ("funsor.compiler::compile_funsor", "funsor.ops.tracer::trace_function"):
+        f = require_func(prog, fq)
+        lists = set(_program_lists(f, refs))
+        if len(lists) < 3:
+            raise AnalysisError(f"{fq}: the OpProgram constructor call with three local lists was not found")
+
+        def is_alloc(st):
+            return isinstance(st, ast.Assign) and len(st.targets) == 1 and isinstance(st.targets[0], ast.Subscript) and isinstance(st.targets[0].value, ast.Name) \
+                and isinstance(st.value, ast.Call) and isinstance(st.value.func, ast.Name) and st.value.func.id == "len" and len(st.value.args) == 1 \
+                and isinstance(st.value.args[0], ast.Name) and st.value.args[0].id == st.targets[0].value.id
+
+        def is_emit(st):
+            return isinstance(st, ast.Expr) and isinstance(st.value, ast.Call) and isinstance(st.value.func, ast.Attribute) and st.value.func.attr == "append" \
+                and isinstance(st.value.func.value, ast.Name) and st.value.func.value.id in lists
+
+        def outcomes(stmts):
+            """set of (allocations, emissions, status, witness line) over the paths through `stmts`"""
+            cur = {(0, 0, "fall", 0)}
+            for st in stmts:
+                nxt = set()
+                for a, e, status, w in cur:
+                    if status != "fall":
+                        nxt.add((a, e, status, w))
+                        continue
+                    if is_alloc(st):
+                        nxt.add((a + 1, e, "fall", st.lineno))
+                    elif is_emit(st):
+                        nxt.add((a, e + 1, "fall", w))
+                    elif isinstance(st, ast.If):
+                        for branch in (st.body, st.orelse):
+                            for a2, e2, s2, w2 in outcomes(branch):
+                                nxt.add((a + a2, e + e2, s2, w2 or w or (branch[0].lineno if branch else st.lineno)))
+                    elif isinstance(st, ast.Continue):
+                        nxt.add((a, e, "continue", w or st.lineno))
+                    elif isinstance(st, ast.Break):
+                        nxt.add((a, e, "break", w))
+                    elif isinstance(st, ast.Raise):
+                        nxt.add((a, e, "raise", w))
+                    elif isinstance(st, ast.Return):
+                        nxt.add((a, e, "return", w))
+                    elif isinstance(st, (ast.For, ast.While, ast.Try, ast.With)):
+                        inner = [x for x in ast.walk(st) if is_alloc(x) or is_emit(x)]
+                        nxt.add((a, e, "opaque" if inner else "fall", w))
+                    else:
+                        nxt.add((a, e, "fall", w))
+                cur = nxt
+            return cur
+
+        for lp in [x for x in walk_no_nested(f.node) if isinstance(x, ast.For)]:
+            if not any(is_alloc(x) for x in ast.walk(lp)):
+                continue
+            n += 1
+            construct = f"{f.fq}::for {norm(lp.target)} in {norm(lp.iter)}"
+            outs = outcomes(lp.body)
+            if any(s_ == "opaque" for _, _, s_, _ in outs):
+                col.unresolved(construct, "allocation / emission inside a nested compound statement", f.loc(lp))
+                continue
+            bad = sorted((a, e, s_, w) for a, e, s_, w in outs if s_ != "raise" and a != e)
+            if bad:
+                a, e, s_, w = bad[0]
+                col.violation(construct, f"on a path through the loop body ({s_} at/after line {w}) {a} value number(s) are allocated but {e} slot(s) are appended to "
+                              f"{sorted(lists)}: every later value is numbered one higher than the slot it occupies", f.loc(lp), path=f"alloc={a} emit={e} exit={s_} line={w}")
+            else:
+                col.ok(construct, f"{len(outs)} path(s) through the body: allocations and emitted slots agree on each", f.loc(lp))
+    col.cur.analysed["numbering_loops"] = n
+
+
+# ---------------------------------------------------------------------- R18.12
+def _trace_order(prog: Program, col: Collector, refs: Refs):
+    f = require_func(prog, "funsor.ops.tracer::trace_function")
+    # the tape: `with trace_ops(...) as <tape>`
+    tape = None
+    for w in walk_no_nested(f.node):
+        if isinstance(w, ast.With):
+            for it in w.items:
+                if isinstance(it.optional_vars, ast.Name) and isinstance(it.context_expr, ast.Call) and norm(it.context_expr.func).endswith("trace_ops"):
+                    tape = it.optional_vars.id
+    if tape is None:
+        raise AnalysisError("trace_function: `with trace_ops(...) as <tape>` not found")
+    lists = set(_program_lists(f, refs))
+    # the loop that numbers operations: contains `<operations>.append`
+    loops = [lp for lp in walk_no_nested(f.node) if isinstance(lp, ast.For)
+             and any(isinstance(x, ast.Call) and isinstance(x.func, ast.Attribute) and x.func.attr == "append" and isinstance(x.func.value, ast.Name)
+                     and x.func.value.id in lists and isinstance(x.args[0] if x.args else None, ast.Tuple) for x in ast.walk(lp))]
+    if len(loops) != 1:
+        col.unresolved(f"{f.fq}::operation numbering loop", f"expected one loop appending (op, arg_ids) pairs, found {len(loops)}", f.loc())
+        return
+    lp = loops[0]
+
+    def is_tape_iter(e, want_reversed=None):
+        """(matches, reversed?) for tape / tape.values() / tape.items() possibly under reversed(...)/list(...)"""
+        rev = False
+        while isinstance(e, ast.Call) and isinstance(e.func, ast.Name) and e.func.id in ("reversed", "list", "tuple") and len(e.args) == 1:
+            if e.func.id == "reversed":
+                rev = not rev
+            e = e.args[0]
+        if isinstance(e, ast.Call) and isinstance(e.func, ast.Attribute) and e.func.attr in ("values", "items", "keys"):
+            e = e.func.value
+        return (isinstance(e, ast.Name) and e.id == tape), rev
+
+    def provenance(e, depth=0):
+        """'execution' | 'discovery' | None (unknown) for the order of the sequence `e`"""
+        if depth > 4:
+            return None
+        ok, rev = is_tape_iter(e)
+        if ok:
+            return "execution" if not rev else "reverse-execution"
+        inner = e
+        rev = False
+        while isinstance(inner, ast.Call) and isinstance(inner.func, ast.Name) and inner.func.id in ("reversed", "list", "tuple") and len(inner.args) == 1:
+            if inner.func.id == "reversed":
+                rev = not rev
+            inner = inner.args[0]
+        if isinstance(inner, ast.Call) and isinstance(inner.func, ast.Attribute) and inner.func.attr in ("values", "items", "keys"):
+            inner = inner.func.value
+        if isinstance(inner, (ast.ListComp, ast.GeneratorExp)) and len(inner.generators) == 1:
+            # only entries without an op (leaves: constants and inputs, which depend on nothing) - their order is immaterial
+            if any(isinstance(c, ast.Compare) and len(c.ops) == 1 and isinstance(c.ops[0], ast.Is) and isinstance(c.comparators[0], ast.Constant)
+                   and c.comparators[0].value is None for c in inner.generators[0].ifs):
+                return "leaves"
+            p = provenance(inner.generators[0].iter, depth + 1)
+            return p if not rev else {"execution": "reverse-execution", "reverse-execution": "execution"}.get(p, p)
+        if isinstance(inner, ast.Name):
+            name = inner.id
+            # how is the container filled?
+            kinds = set()
+            for st in walk_no_nested(f.node):
+                if isinstance(st, ast.Assign) and any(isinstance(t, ast.Name) and t.id == name for t in st.targets):
+                    if isinstance(st.value, (ast.List, ast.Dict)) or (isinstance(st.value, ast.Call) and norm(st.value.func) in ("OrderedDict", "dict", "list")
+                                                                         and (not st.value.args or isinstance(st.value.args[0], (ast.Dict, ast.List, ast.Tuple)))):
+                        # a display / constructor with initial content (the root) followed by in-loop insertions: judged below
+                        continue
+                    kinds.add(provenance(st.value, depth + 1))
+                if isinstance(st, ast.AugAssign) and isinstance(st.target, ast.Name) and st.target.id == name:
+                    kinds.add(provenance(st.value, depth + 1))
+            for outer in walk_no_nested(f.node):
+                if not isinstance(outer, ast.For):
+                    continue
+                fills = [x for x in ast.walk(outer) if (isinstance(x, ast.Call) and isinstance(x.func, ast.Attribute) and x.func.attr in ("append", "setdefault")
+                                                       and isinstance(x.func.value, ast.Name) and x.func.value.id == name)
+                         or (isinstance(x, ast.Assign) and any(isinstance(t, ast.Subscript) and isinstance(t.value, ast.Name) and t.value.id == name for t in x.targets))]
+                if not fills:
+                    continue
+                ok2, rev2 = is_tape_iter(outer.iter)
+                if ok2 and not rev2:
+                    kinds.add("execution")
+                elif ok2 and rev2:
+                    # filled while walking the tape backwards: insertion order is the order of discovery from the root
+                    kinds.add("discovery")
+                else:
+                    kinds.add(None)
+            kinds.discard("leaves")
+            if kinds == {"execution"}:
+                return "execution" if not rev else "reverse-execution"
+            if "discovery" in kinds:
+                return "discovery"
+            return None
+        return None
+
+    prov = provenance(lp.iter)
+    construct = f"{f.fq}::order of `{norm(lp.iter)}`"
+    if prov == "execution":
+        col.ok(construct, "operations are numbered in the order in which the tape recorded them (every operand was computed before its use)", f.loc(lp))
+    elif prov in ("discovery", "reverse-execution"):
+        col.violation(construct, "the sequence that is numbered is (the reverse of) the order in which nodes were discovered walking back from the root, which is not a "
+                      "topological order of a DAG: when a shared value is the earlier operand of the root, its consumer is numbered before it "
+                      "(tracing `add(a := mul(x, x), exp(a))` fails with KeyError)", f.loc(lp))
+    else:
+        col.unresolved(construct, "cannot tell in which order the numbered sequence is", f.loc(lp))
